@@ -25,6 +25,9 @@ struct ClosureSpec {
     requires: Vec<String>,
     #[serde(default)]
     ensures: Vec<String>,
+    /// ghost text inserted at the start of the closure body (proof blocks only)
+    #[serde(default)]
+    prologue: String,
 }
 
 #[derive(Deserialize, Default, Clone)]
@@ -1147,7 +1150,7 @@ impl<'a, 'ast> Visit<'ast> for Rw<'a> {
                 }
                 let (cs_, _) = br(c.span());
                 let (bs, be) = br(c.body.span());
-                self.replace_range(cs_, bs, format!("{} {{ {}", head, prologue), "R7-closure-contract");
+                self.replace_range(cs_, bs, format!("{} {{ {}{}", head, prologue, if cs.prologue.is_empty() { String::new() } else { format!("{} ", cs.prologue) }), "R7-closure-contract");
                 self.insert_close(be, " }".to_string());
             }
         } else {
